@@ -25,7 +25,9 @@ inline Q fromReal(double d)
 inline std::vector<Q> toQ(const soplex::VectorBase<double>& v)
 {
    std::vector<Q> r(v.dim());
-   for(int i = 0; i < v.dim(); i++) r[i] = qd(v[i]);
+   // non-finite entries (never legitimate in a solution vector) are mapped to a huge finite value so that the exact monitors flag
+   // them as violations instead of GMP raising SIGFPE inside the harness
+   for(int i = 0; i < v.dim(); i++) r[i] = std::isfinite(v[i]) ? qd(v[i]) : Q(qd(1e300) * (std::isnan(v[i]) ? 7 : (v[i] > 0 ? 1 : -1)));
    return r;
 }
 inline std::vector<Q> toQ(const soplex::VectorBase<soplex::Rational>& v)
